@@ -725,6 +725,36 @@ func Origins(v ssa.Value, o OriginOpts) []ssa.Value {
 				for _, s := range freeVarStores(o.Prog, a) {
 					walk(s, depth, ext)
 				}
+			case *ssa.IndexAddr:
+				// an element of a slice: with whole-program options, everything stored into the local arrays the
+				// slice can be a view of (variadic arguments, slice literals)
+				if o.Prog != nil && o.ThroughPar {
+					found := false
+					sub := o
+					for _, b := range Origins(a.X, sub) {
+						al, ok := b.(*ssa.Alloc)
+						if !ok || al.Referrers() == nil {
+							continue
+						}
+						if _, isArr := al.Type().Underlying().(*types.Pointer).Elem().Underlying().(*types.Array); !isArr {
+							continue
+						}
+						for _, r := range *al.Referrers() {
+							if ia, ok := r.(*ssa.IndexAddr); ok && ia.Referrers() != nil {
+								for _, rr := range *ia.Referrers() {
+									if st, ok := rr.(*ssa.Store); ok && st.Addr == ssa.Value(ia) {
+										found = true
+										walk(st.Val, depth, ext)
+									}
+								}
+							}
+						}
+					}
+					if found {
+						return
+					}
+				}
+				leaf(v)
 			case *ssa.FieldAddr:
 				if o.FieldsModuleWide && o.Prog != nil {
 					r := FieldAddrRef(a)
